@@ -102,6 +102,43 @@ pub fn nested_family(kind: usize, k: usize) -> String {
     format!("{PRELUDE}def f(a: i64, t: T): i64 {{\n  {}\n}}\ndef main(a: i64): i64 {{ f(a, B) }}\n", go(kind, 0, k))
 }
 
+/// k nested branch points whose *result* has the given type (0 i64, 1 four-constructor data type,
+/// 2 list, 3 codata with one destructor, 4 codata with two destructors), sitting either in a
+/// let binding (pos 0) or directly in the argument of a call (pos 1), branching by a conditional
+/// (br 0) or a four-way match (br 1)
+pub fn nested_family2(ty: usize, pos: usize, br: usize, k: usize) -> String {
+    let (tyname, base, wrap) = match ty {
+        0 => ("i64", "a", "wi"),
+        1 => ("T", "B", "wt"),
+        2 => ("List[i64]", "Nil", "wl"),
+        3 => ("Fun[i64, i64]", "new { apply(v) => v }", "wf"),
+        _ => ("Stream[i64]", "ones()", "ws"),
+    };
+    fn go(i: usize, k: usize, tyname: &str, base: &str, wrap: &str, pos: usize, br: usize) -> String {
+        if i == k {
+            return base.to_string();
+        }
+        let inner = go(i + 1, k, tyname, base, wrap, pos, br);
+        let branch = if br == 0 {
+            format!("if a == {i} {{ {inner} }} else {{ {base} }}")
+        } else {
+            format!("t.case {{ A => {inner}, B => {base}, C => {base}, D => {base} }}")
+        };
+        if pos == 0 { format!("(let y{i}: {tyname} = {branch}; {wrap}(y{i}))") } else { format!("{wrap}({branch})") }
+    }
+    let e = go(0, k, tyname, base, wrap, pos, br);
+    let observe = match ty {
+        0 => e,
+        1 => format!("({e}).case {{ A => 0, B => 1, C => 2, D => 3 }}"),
+        2 => format!("({e}).case[i64] {{ Nil => 0, Cons(h, tl) => h }}"),
+        3 => format!("({e}).apply[i64, i64](a)"),
+        _ => format!("({e}).head[i64]"),
+    };
+    format!(
+        "{PRELUDE}def wi(x: i64): i64 {{ x + 1 }}\ndef wt(x: T): T {{ x.case {{ A => B, B => C, C => D, D => A }} }}\ndef wl(x: List[i64]): List[i64] {{ Cons(1, x) }}\ndef wf(x: Fun[i64, i64]): Fun[i64, i64] {{ new {{ apply(v) => (x.apply[i64, i64](v)) + 1 }} }}\ndef ones(): Stream[i64] {{ new {{ head => 1, tail => ones() }} }}\ndef ws(x: Stream[i64]): Stream[i64] {{ x.tail[i64] }}\ndef f(a: i64, t: T): i64 {{\n  {observe}\n}}\ndef main(a: i64): i64 {{ f(a, B) }}\n"
+    )
+}
+
 pub fn random_size_family(c: &mut Chooser) -> (Vec<usize>, Vec<usize>, usize, usize) {
     let n = 1 + c.choose(3);
     let kinds: Vec<usize> = (0..n).map(|_| c.choose(KINDS)).collect();
